@@ -278,6 +278,29 @@ def rule_stack(rep, res, entry=None, sym="bs"):
                          config=res.config,
                          msg="the rows copied back from the stacked solution are taken from its END (x[-k:]); the zero padding of the last "
                              "batch is appended at the tail, so these are the padding / shifted samples")
+    # x[j:] = extremum(x[:k]) — the padded tail of a batch vector is filled from the real rows: the tail must start where the real rows end
+    import ast as _ast
+    seen = set()
+    for ev in res.events("inplace"):
+        n = ev.node
+        if not (isinstance(n, _ast.Assign) and len(n.targets) == 1 and isinstance(n.targets[0], _ast.Subscript)):
+            continue
+        t, v = n.targets[0], n.value
+        if not (isinstance(t.slice, _ast.Slice) and t.slice.lower is not None and t.slice.upper is None and isinstance(t.value, _ast.Name)):
+            continue
+        if not (isinstance(v, _ast.Call) and v.args and isinstance(v.args[0], _ast.Subscript) and isinstance(v.args[0].slice, _ast.Slice)
+                and isinstance(v.args[0].value, _ast.Name) and v.args[0].value.id == t.value.id and v.args[0].slice.lower is None
+                and v.args[0].slice.upper is not None and ev.d["value"].tag("extremum") is not None):
+            continue
+        k = (ev.loc, ev.text())
+        if k in seen:
+            continue
+        seen.add(k)
+        j_, k_ = norm_text(t.slice.lower), norm_text(v.args[0].slice.upper)
+        rep.check("R-STACK", "the padded tail starts where the real rows end", j_ == k_, where=ev.loc, construct=ev.text(), entry=entry,
+                  config=res.config,
+                  msg=f"the tail `[{j_}:]` is filled with an extremum of the real rows `[:{k_}]`, but the two boundaries differ: real rows "
+                      f"between them are overwritten with another row's value (or padded rows keep their own)")
     return nerr
 
 
@@ -568,9 +591,16 @@ def rule_dtype(rep, res, entry=None, rule="R-DTYPE"):
             continue
         v = ev.d["value"].flat()
         solved = bool(sol_ids(v))
-        if t.tag("dtype_copy") and not solved and not v.tag("floating"):
+        if t.tag("dtype_copy") and (solved or v.tag("floating")):
+            rep.violated(rule, "result buffer element type", where=ev.loc, construct=ev.text(), entry=entry, config=res.config,
+                         msg=f"a {'solver' if solved else 'floating-point (linear solve / quotient)'} result is stored into a copy / tiling of the caller's "
+                             f"`{', '.join(sorted(src))}`, which keeps that array's dtype: integer-typed `{', '.join(sorted(src))}` truncate it")
+            continue
+        val_is_input = isinstance(ev.d["value"].fresh, tuple) and bool(ev.d["value"].fresh[1]) and ev.d["value"].tag("kind") == "ndarray"
+        if not solved and not v.tag("floating"):
             # a copy of a caller array receives values of ANOTHER input (arbitrary, generally fractional numbers)
-            other = sorted(o for o in v.data if o not in src and "@" not in o and "#" not in o and "|" not in o)
+            plain_src = {o.split("|")[0] for o in src}
+            other = sorted(o for o in v.data if o not in plain_src and "@" not in o and "#" not in o and "|" not in o)
             if other and not v.known and v.tag("kind") != "int" and not v.tag("boolarr"):
                 rep.violated(rule, "result buffer element type", where=ev.loc, construct=ev.text(), entry=entry, config=res.config,
                              msg=f"values of `{', '.join(other)}` are stored into a copy of the caller's `{', '.join(sorted(src))}`, which keeps that "
@@ -684,3 +714,96 @@ def near(ev):
         if m != m0 or (c and c != c0) or not f.startswith("_") or f.startswith("__"):
             return False
     return True
+
+
+def rule_extent_coincidence(rep, res, entry=None, rule="R-DISPATCH"):
+    """the meaning of an argument is never chosen by comparing the extents of two unrelated axes"""
+    entry = entry or res.entry
+    seen = set()
+    for ev in res.events("extent_coincidence"):
+        k = (ev.loc, ev.text())
+        if k in seen:
+            continue
+        seen.add(k)
+        a, b = ev.d["axes"]
+        rep.violated(rule, "no dispatch on a coincidence of unrelated extents", where=ev.loc, construct=ev.text(), entry=entry, config=res.config,
+                     msg=f"the branch is chosen by whether the extent of axis {a} equals that of axis {b}: whenever the two happen to coincide "
+                         f"(e.g. as many samples as channels) the other interpretation of the argument is taken")
+
+
+def rule_block_cover(rep, res, entry=None, rule="R-COVER"):
+    """a result buffer filled block by block — `for i in range(n // k): buf[i*k:(i+1)*k] = …` — covers only the ⌊n/k⌋ full blocks:
+    the trailing n mod k entries keep their initial value (NaN / 0) unless the remainder is handled after the loop or the trip count
+    is rounded up.  Decided on the syntax of every function the analysed path reaches."""
+    import ast as _ast
+    entry = entry or res.entry
+    fns = {ev.d["callee"] for ev in res.events("call")} | {res.fn}
+    seen = set()
+    for fn in sorted(fns, key=lambda f: f.qual):
+        body_lists = [n.body for n in _ast.walk(fn.node) if hasattr(n, "body") and isinstance(getattr(n, "body"), list)]
+        body_lists += [n.orelse for n in _ast.walk(fn.node) if isinstance(getattr(n, "orelse", None), list) and n.orelse]
+        for body in body_lists:
+            for pos, st in enumerate(body):
+                if not (isinstance(st, _ast.For) and isinstance(st.target, _ast.Name) and isinstance(st.iter, _ast.Call)
+                        and isinstance(st.iter.func, _ast.Name) and st.iter.func.id == "range" and len(st.iter.args) == 1):
+                    continue
+                fd = [n for n in _ast.walk(st.iter.args[0]) if isinstance(n, _ast.BinOp) and isinstance(n.op, _ast.FloorDiv)]
+                if not fd:
+                    continue
+                block = norm_text(fd[0].right)
+                i = st.target.id
+                # slices i*block:(i+1)*block, written inline or through `sl = slice(i*block, (i+1)*block)`
+                def is_block_slice(lo, hi):
+                    return lo is not None and hi is not None and i in {n.id for n in _ast.walk(lo) if isinstance(n, _ast.Name)} \
+                        and block in norm_text(lo) and block in norm_text(hi)
+                slnames = set()
+                for n in _ast.walk(st):
+                    if isinstance(n, _ast.Assign) and isinstance(n.value, _ast.Call) and isinstance(n.value.func, _ast.Name) \
+                            and n.value.func.id == "slice" and len(n.value.args) == 2 and is_block_slice(*n.value.args):
+                        slnames |= {t.id for t in n.targets if isinstance(t, _ast.Name)}
+                stored = set()
+                for n in _ast.walk(st):
+                    if isinstance(n, _ast.Subscript) and isinstance(n.ctx, _ast.Store) and isinstance(n.value, _ast.Name):
+                        sl = n.slice
+                        if (isinstance(sl, _ast.Slice) and is_block_slice(sl.lower, sl.upper)) or (isinstance(sl, _ast.Name) and sl.id in slnames):
+                            stored.add(n.value.id)
+                if not stored:
+                    continue
+                # remainder handled after the loop: a later store into the same buffer through a slice
+                later = set()
+                for st2 in body[pos + 1:]:
+                    for n in _ast.walk(st2):
+                        if isinstance(n, _ast.Subscript) and isinstance(n.ctx, _ast.Store) and isinstance(n.value, _ast.Name) and n.value.id in stored:
+                            later.add(n.value.id)
+                for buf in sorted(stored - later):
+                    k = (fn.qual, st.lineno, buf)
+                    if k in seen:
+                        continue
+                    seen.add(k)
+                    rep.violated(rule, "block-wise filling covers the whole buffer", where=fn.loc(st), construct=norm_text(st.iter)[:80] + f" → {buf}[block]",
+                                 entry=entry, config=res.config,
+                                 msg=f"`{buf}` is filled in blocks of {block} over range({norm_text(st.iter.args[0])}): only the full blocks are visited, "
+                                     f"the trailing (n mod {block}) entries keep their initial value and silently take part in the following reduction")
+    return len(seen)
+
+
+def rule_every_iteration_reaches(rep, res, kind, what, entry=None, fn_name=None, rule="R-TYPESTATE"):
+    """no iteration of the loop that contains the `kind` event (e.g. the interpolator construction) is skipped by a `continue` under a
+    guard the configuration leaves undecided: every element of the iterated sequence goes through that step"""
+    entry = entry or res.entry
+    keyevs = [ev for ev in res.events(kind) if ev.loops and (fn_name is None or ev.fn.name == fn_name)]
+    done = set()
+    for kv in keyevs:
+        loop = kv.loops[-1]
+        if loop in done:
+            continue
+        done.add(loop)
+        skips = [c for c in res.events("continue") if c.loops and c.loops[-1] == loop and c.fn is kv.fn and c.node.lineno < kv.node.lineno]
+        for c in skips:
+            und = [g[0] for g in c.guards if len(g) > 3 and not g[3]]
+            rep.violated(rule, f"every element of the loop goes through {what}", where=c.loc, construct=f"continue before {norm_text(kv.node)[:50]}",
+                         entry=entry, config=res.config,
+                         msg=f"under the guard {und} the iteration is skipped before {what}: that element is handed on unprocessed")
+        if not skips:
+            rep.holds(rule, f"every element of the loop goes through {what}", where=kv.loc, construct=norm_text(kv.node)[:60], entry=entry,
+                      config=res.config)
